@@ -20,11 +20,11 @@ def _l4(frame):
     return None
 
 
-def make_aux(req, rep, chain=0, grp=0, pair=0):
+def make_aux(req, rep, chain=0, grp=0, pair=0, seg=0):
     """Decodes that TLA+ cannot do itself: the universal address text of the contacted
     endpoint (RFC 5952 text of the destination address + port), and what the zlib body of a
     Gh0st reply inflates to."""
-    aux = {"inflated": -1, "uaddr": [], "chain": chain, "grp": grp, "pair": pair}
+    aux = {"inflated": -1, "uaddr": [], "chain": chain, "grp": grp, "pair": pair, "seg": seg}
     x = _l4(req)
     if x and x[1] in (6, 17) and len(req) >= x[2] + 4:
         dport = struct.unpack(">H", req[x[2] + 2:x[2] + 4])[0]
@@ -57,7 +57,7 @@ class Session:
         driver.configure(cfg)
         driver.reset()
 
-    def send(self, frames, chain=0, grp=0, pair=0, timeout=None):
+    def send(self, frames, chain=0, grp=0, pair=0, seg=0, timeout=None):
         """Run frames; returns the observations (dicts with out/rep/tcb/log), one per frame.
         An abort of the responder is recorded as such; the driver is then restarted (empty
         connection table, recorded as a reset) and the remaining frames are still run."""
@@ -74,8 +74,9 @@ class Session:
                 ch = chain[k] if isinstance(chain, (list, tuple)) else chain
                 gr = grp[k] if isinstance(grp, (list, tuple)) else grp
                 pr = pair[k] if isinstance(pair, (list, tuple)) else pair
+                sg = seg[k] if isinstance(seg, (list, tuple)) else seg
                 rec = {"ev": "frame", "req": o["req"], "out": o["out"], "rep": o["rep"], "tcb": o["tcb"],
-                       "log": o["log"], "aux": make_aux(frames[k], rep, ch, gr, pr)}
+                       "log": o["log"], "aux": make_aux(frames[k], rep, ch, gr, pr, sg)}
                 if o["out"] == "panic":
                     rec["panic"] = o.get("panic", "")
                     self.panics += 1
